@@ -36,7 +36,7 @@ def build():
     ga['block.conns[conn] = ConnectionState()'] = list(ga['block.conns[conn] = ConnectionState()']) + [('g_conn', 'conn')]
     ga['self._schedule_new_conn(block, event)'] = [('g_outcome', '1')]
     ga['block.abort_waiters(e)'] = [('g_outcome', '2')]
-    w.contract(POOLPY, 'BasePool._connect', view='outcome', params=con.params, state=con.state, ghost={'g_outcome': 'int', 'g_conn': 'Conn'}, returns='none',
+    w.contract(POOLPY, 'BasePool._connect', view='outcome', params=con.params, state=con.state, ghost={'g_outcome': 'int', 'g_conn': 'Conn', 'g_unit': 'bool'}, returns='none',
         requires=con.requires + ['g_outcome == -1'], modifies=con.modifies, hints=dict(con.hints, ghost_out=['g_outcome', 'g_conn']), ghost_after=ga,
         ensures=['g_outcome == 0 or g_outcome == 1 or g_outcome == 2',
                  # delivered: the new connection is on top of the block's stack (and Block.release woke a pending waiter, W1)
